@@ -106,9 +106,11 @@ func (m *PacketFactoryCopy) NewPacket(
 		if retainablePacket.header.Padding {
 			// Older versions of pion/rtp didn't have the Header.PaddingSize field and as a workaround
 			// users had to add padding to the payload. We need to handle this case here.
-			if retainablePacket.header.PaddingSize == 0 && len(retainablePacket.payload) > 0 {
+			// The padding count is the last byte of the original payload and can cover at most that
+			// payload, never the original sequence number in front of it.
+			if retainablePacket.header.PaddingSize == 0 && len(retainablePacket.payload) > rtxSsrcByteLength {
 				paddingLength := int(retainablePacket.payload[len(retainablePacket.payload)-1])
-				if paddingLength > len(retainablePacket.payload) {
+				if paddingLength > len(retainablePacket.payload)-rtxSsrcByteLength {
 					return nil, errPaddingOverflow
 				}
 				retainablePacket.payload = (*retainablePacket.buffer)[:len(retainablePacket.payload)-paddingLength]
